@@ -575,15 +575,29 @@ pub fn inflightstory(args: &[String]) -> i32 {
         let k = i + 2;
         let val = vec![b'g'; 200 + 3000 * (i % 2)];
         step(&store, &mut vals, &mut evs, "insert", k, &val);
-        // the worker is preempted in the middle of its batch (half of its scheduling points hold it 30 ms)
-        feoxdb::verif::sched::set_random_stall(1, 30_000);
+        // the worker is preempted in the middle of its batch: right after it allocated the blocks of this
+        // key's first write (the hook event `alloc` is emitted there) it is held for 40 ms
+        static IN_WINDOW: std::sync::atomic::AtomicBool = std::sync::atomic::AtomicBool::new(false);
+        IN_WINDOW.store(false, std::sync::atomic::Ordering::SeqCst);
+        let gone = keys[k - 1].clone();
+        feoxdb::verif::install(Box::new(move |_seq, ev| {
+            if ev.kind == "alloc" && ev.key == gone.as_slice() {
+                IN_WINDOW.store(true, std::sync::atomic::Ordering::SeqCst);
+                std::thread::sleep(std::time::Duration::from_millis(40));
+            }
+        }));
         let s2 = store.clone();
         let flusher = std::thread::spawn(move || s2.flush());
-        std::thread::sleep(std::time::Duration::from_millis(6));
-        feoxdb::verif::sched::set_random_stall(0, 0);      // (the deleting call itself is not held up)
+        let t0 = std::time::Instant::now();
+        while !IN_WINDOW.load(std::sync::atomic::Ordering::SeqCst) && t0.elapsed().as_millis() < 2000 {
+            std::thread::sleep(std::time::Duration::from_micros(200));
+        }
+        let sector_at_delete = store.verif_record(&keys[k - 1]).map(|r| r.sector);
         step(&store, &mut vals, &mut evs, "delete", k, b"");
+        if o.num("debug", 0u32) == 1 { eprintln!("round {i}: sector at delete {sector_at_delete:?}, flusher finished {}", flusher.is_finished()); }
         // the concurrent flush has no logical effect: it is recorded where it returned
         let r = flusher.join().expect("flusher");
+        feoxdb::verif::uninstall();
         let mut ev = call_event("flush", 1);
         ev["res"] = match &r { Ok(()) => res("unit", 0, noval(), 0), Err(e) => res_err(e) };
         ev["now"] = json!(limbs(now));
